@@ -25,7 +25,7 @@ def noSendRaw (ops : List Op) : Prop := ∀ op ∈ ops, match op with | .uraw _ 
 
 /-! ### reading the theorems off the invariant (Lemmas/ConnC03A–I.lean) -/
 
-theorem cfgRes_eq (jid : Option Bytes) : cfgRes jid = configuredResource jid := rfl
+theorem cfgRes_cfg (jid : Option Bytes) : cfgRes jid = configuredResource jid := rfl
 theorem isConnEv_eq : isConnEv = isConnectEv := by funext e; cases e <;> rfl
 
 theorem opOk_of_userOps {ops : List Op} (hu : userOps ops) :
@@ -64,7 +64,20 @@ theorem requests_answer_offers (jid pass : Option Bytes) (cert : Bool) (flags : 
       (r.item = .session → r.snap.g.offeredSession = true) ∧
       (∀ x, r.item = .enable x → r.snap.g.offeredSm = true) ∧
       (∀ p h, r.item = .resume p h → r.snap.g.offeredSm = true) := by
-  sorry
+  intro r hr
+  obtain ⟨h1, _⟩ := tx_lib jid pass cert flags ops hu r hr
+  rcases h1 with h1 | h1
+  · refine ⟨?_, ?_, ?_, ?_, ?_, ?_, ?_⟩ <;> (intros; rename_i e; first | (rw [e] at h1; cases h1) | skip)
+    all_goals (rename_i e' _; rw [e'] at h1; cases h1)
+  · refine ⟨fun e => ?_, fun m t e => ?_, fun e => ?_, fun res e => ?_, fun e => ?_, fun x e => ?_, fun q hh e => ?_⟩ <;>
+      (rw [e] at h1)
+    · exact h1.1
+    · exact h1.1
+    · exact h1
+    · exact h1.2.1
+    · exact h1.1
+    · exact h1.1
+    · exact h1.1
 
 /-- RFC 6120 order, in the form that holds for every server behaviour: resource binding, session
     and stream management requests are only issued after authentication has succeeded on that
@@ -77,38 +90,67 @@ theorem negotiation_order (jid pass : Option Bytes) (cert : Bool) (flags : Nat) 
         (∃ p h, r.item = .resume p h) → r.snap.g.authOk = true) ∧
       (r.item = .starttls → r.snap.secured = false) ∧
       ((∃ m t, r.item = .auth m t) ∨ (∃ t, r.item = .response t) → r.snap.g.authOk = false) := by
-  sorry
+  intro r hr
+  obtain ⟨h1, _⟩ := tx_lib jid pass cert flags ops hu r hr
+  rcases h1 with h1 | h1
+  · refine ⟨?_, ?_, ?_⟩
+    · rintro (⟨_, e⟩ | e | ⟨_, e⟩ | ⟨_, _, e⟩) <;> (rw [e] at h1; cases h1)
+    · intro e; rw [e] at h1; cases h1
+    · rintro (⟨_, _, e⟩ | ⟨_, e⟩) <;> (rw [e] at h1; cases h1)
+  · refine ⟨?_, ?_, ?_⟩
+    · rintro (⟨_, e⟩ | e | ⟨_, e⟩ | ⟨_, _, e⟩) <;> rw [e] at h1
+      · exact h1.2.2
+      · exact h1.2
+      · exact h1.2
+      · exact h1.2
+    · intro e; rw [e] at h1; exact h1.2
+    · rintro (⟨_, _, e⟩ | ⟨_, e⟩) <;> rw [e] at h1
+      · exact h1.2
+      · exact h1
 
 theorem header_fields (jid pass : Option Bytes) (cert : Bool) (flags : Nat) (ops : List Op)
     (hu : userOps ops) :
     ∀ r ∈ (exec (fresh jid pass cert flags) ops).tx, ∀ to frm comp, r.item = .hdr to frm comp →
       (∃ j, jid = some j ∧ to = (if comp then j else Jid.domain j)) ∧
       (∀ f, frm = some f → r.sec = true ∧ ∃ j, jid = some j ∧ f = Jid.bare j ∧ (64 : UInt8) ∈ j) := by
-  sorry
+  intro r hr to frm comp e
+  obtain ⟨h1, h2⟩ := tx_lib jid pass cert flags ops hu r hr
+  rcases h1 with h1 | h1
+  · rw [e] at h1; cases h1
+  · rw [e] at h1
+    refine ⟨h1.2.1, fun f hf => ⟨h2 ⟨to, f, comp, by rw [e, hf]⟩, h1.2.2 f hf⟩⟩
 
 theorem bind_resource (jid pass : Option Bytes) (cert : Bool) (flags : Nat) (ops : List Op)
     (hu : userOps ops) :
     ∀ r ∈ (exec (fresh jid pass cert flags) ops).tx, ∀ res, r.item = .bind res →
       res = configuredResource jid := by
-  sorry
+  intro r hr res e
+  obtain ⟨h1, _⟩ := tx_lib jid pass cert flags ops hu r hr
+  rcases h1 with h1 | h1
+  · rw [e] at h1; cases h1
+  · rw [e] at h1; rw [← cfgRes_cfg]; exact h1.1
 
 theorem connect_once (jid pass : Option Bytes) (cert : Bool) (flags : Nat) (ops : List Op) (a : Nat) :
     (((exec (fresh jid pass cert flags) ops).evs.filter
         fun p => p.1.attempt = a && isConnectEv p.2).length) ≤ 1 := by
-  sorry
+  obtain ⟨p, _, hi⟩ := Good.exec (jid := jid) ops (opOk_any ops) (good_fresh jid pass cert flags)
+  have := hi.e.once a
+  unfold cnt at this; rw [isConnEv_eq] at this; exact this
 
 theorem connect_implies_negotiated (jid pass : Option Bytes) (cert : Bool) (flags : Nat)
     (ops : List Op) :
     ∀ p ∈ (exec (fresh jid pass cert flags) ops).evs, p.2 = .connect →
       (p.1.authOk = true ∧ (p.1.bound = true ∨ p.1.resumed = true)) ∨
       p.1.handshakeAck = true ∨ p.1.legacyOk = true := by
-  sorry
+  obtain ⟨p, _, hi⟩ := Good.exec (jid := jid) ops (opOk_any ops) (good_fresh jid pass cert flags)
+  intro q hq e; exact hi.e.neg q hq e
 
 theorem no_user_callback_before_connect (jid pass : Option Bytes) (cert : Bool) (flags : Nat)
     (ops : List Op) :
     ∀ p ∈ (exec (fresh jid pass cert flags) ops).evs,
       ((∃ n i, p.2 = .userStanza n i) ∨ p.2 = .userTimed) → p.1.notifiedConnect = true := by
-  sorry
+  obtain ⟨p, _, hi⟩ := Good.exec (jid := jid) ops (opOk_any ops) (good_fresh jid pass cert flags)
+  intro q hq e; exact hi.e.ucb q hq e
 
 /-- FULL-STRENGTH statement (false of the current code, see `send_raw_before_connect`):
       ∀ r ∈ tx, r.owner = .user → r.notifiedW = true
@@ -117,7 +159,8 @@ theorem no_user_callback_before_connect (jid pass : Option Bytes) (cert : Bool) 
 theorem no_user_data_before_connect_partial (jid pass : Option Bytes) (cert : Bool) (flags : Nat)
     (ops : List Op) (hn : noSendRaw ops) :
     ∀ r ∈ (exec (fresh jid pass cert flags) ops).tx, r.owner = .user → r.notifiedW = true := by
-  sorry
+  obtain ⟨p, _, hi⟩ := Good.exec (jid := jid) ops (opOk_of_noSendRaw hn) (good_fresh jid pass cert flags)
+  intro r hr ho; exact (hi.q.tx_ok r hr).2.2 ho trivial
 
 /-- the same at QUEUE time: a user element is queued on a negotiated stream, or (re-queued by a
     stream-management resumption) on a stream whose session is already confirmed -/
@@ -126,12 +169,15 @@ theorem no_user_data_before_connect_queue_partial (jid pass : Option Bytes) (cer
     ∀ r ∈ (exec (fresh jid pass cert flags) ops).tx, r.owner = .user →
       r.snap.negotiated = true ∨
       (r.snap.g.authOk = true ∧ (r.snap.g.bound = true ∨ r.snap.g.resumed = true)) := by
-  sorry
+  obtain ⟨p, _, hi⟩ := Good.exec (jid := jid) ops (opOk_of_noSendRaw hn) (good_fresh jid pass cert flags)
+  intro r hr ho; exact Or.inl (((hi.q.tx_ok r hr).1.1 ho).2 trivial)
 
 /-- `negotiated` and the CONNECT notification go together -/
 theorem negotiated_iff_notified (jid pass : Option Bytes) (cert : Bool) (flags : Nat) (ops : List Op) :
     let c := exec (fresh jid pass cert flags) ops
     c.state = .connected → (c.negotiated = true ↔ c.g.notifiedConnect = true) := by
-  sorry
+  obtain ⟨p, _, hi⟩ := Good.exec (jid := jid) ops (opOk_any ops) (good_fresh jid pass cert flags)
+  intro c hc
+  exact ⟨hi.gg.nn1, hi.gg.nn2 (by rw [hc]; simp)⟩
 
 end Strophe.Lemmas.ConnC03
